@@ -951,8 +951,19 @@ class ExpressionTransform:
             msgid = ast.Constant(node.msgid)
         else:
             msgid = target
-        return self._translate(node.node, target) + \
-            emit_translate(target, msgid, default=target)
+        # A value of None (the attribute is dropped) is never translated,
+        # and without an explicit message id neither is an empty one
+        if node.msgid is not None:
+            test = ast.Compare(
+                left=load(target.id), ops=[ast.IsNot()],
+                comparators=[load("None")])
+        else:
+            test = load(target.id)
+        return self._translate(node.node, target) + [ast.If(
+            test=test,
+            body=emit_translate(target, msgid, default=target),
+            orelse=[],
+        )]
 
     def visit_Static(self, node, target):
         return [ast.Assign(targets=[target], value=node)]
